@@ -233,6 +233,21 @@ int setup_routing_information(struct element *e, const cJSON *request, const cJS
 }
 
 /**
+ * Takes back what setup_routing_information() did and releases the routing request.
+ * Nothing is sent to the requesting peer.
+ */
+void abort_routing_request(const struct peer *owner_peer, struct routing_request *routing_request)
+{
+	HASHTABLE_REMOVE(route_table, owner_peer->routing_table, routing_request->id, NULL);
+	if (unlikely(routing_request->timer.cancel(&routing_request->timer) < 0)) {
+		log_peer_err(owner_peer, "Could not cancel request timer!\n");
+	}
+	cjet_timer_destroy(&routing_request->timer);
+	cJSON_Delete(routing_request->origin_request_id);
+	cjet_free(routing_request);
+}
+
+/**
  * @param json_rpc The complete response
  * @param response Result or error object of json_rpc, this is what is to be forwarded to the original requester
  * @param result_type Tells whether response is result or error
